@@ -89,6 +89,7 @@ def run(prog, R):
     scanners.check(prog, R, "C11.2-digit-scanners")
     # the two string scanners behave identically up to their quote character (decision table of one iteration)
     scanners.string_scanners_agree(prog, R, "C11.2-string-scanners-agree")
+    scanners.string_flags_check(prog, R, "C11.2-string-flags")
     at = R.anchor(prog, "oq3_lexer::Cursor::advance_token")
     if at:
         ps, tr = paths(prog, at.npath, 50000)
@@ -122,6 +123,24 @@ def run(prog, R):
             elif k[0] == "call" and k[1].endswith("block_comment"):
                 n += 1
         R.ob("C11.2-flags-set-by-scanner", "advance_token forwards scanner results into the token flags unchanged", not bad and n >= 8, at.at, f"{n} flag-carrying token paths; {bad[:3]}")
+    # version header: (major, minor) = (true, true) only when the character after the number is `;` or whitespace,
+    # with or without a minor version (else `3.0.1` / `3.0x` would be accepted)
+    ovb = R.anchor(prog, "oq3_lexer::Cursor::openqasm_version")
+    if ovb:
+        ntt, badv = 0, []
+        for p in SymExec(prog, ovb).paths():
+            if "__diverged__" in p.env:
+                continue
+            r = deep_strip(p.env.get(0))
+            if show(r) != "(true, true)":
+                continue
+            ntt += 1
+            cs = [(show(t), c) for t, c in conds_of(p)]
+            term_ok = any((s_.startswith("Ne(first(") and "59" in s_ and c == ("eq", 0)) or (s_.startswith("Eq(first(") and "59" in s_ and truth(c)) or (s_.startswith("is_whitespace(first(") and truth(c)) for s_, c in cs)
+            if not term_ok:
+                badv.append(cs[-2:])
+        R.ob("C11.2-version-terminator", "openqasm_version reports a complete version only before `;` or whitespace", ntt >= 2 and not badv, ovb.at, f"{ntt} (true, true) paths; without a terminator test: {badv[:2]}")
+    R.premises(prog, "C11.2-block-comment-premise", ["C15:C15.4-"], "`terminated = (depth == 0)` flags an unterminated comment only if depth counts openers and closers correctly (both characters of each marker consumed)")
     bc = R.anchor(prog, "oq3_lexer::Cursor::block_comment")
     if bc:
         ok = False
